@@ -94,6 +94,40 @@ def observer_fact(f) -> bool:
     return False
 
 
+def getters_pure(prog: Program, rep) -> None:
+    """display code reads members of iterates and step results lazily and in an order the algorithm does not control, so a
+    property getter must not change the object it is read from (functools.cached_property keeps its memo itself): otherwise the
+    value another member returns depends on whether a display row touched this one first."""
+    n = 0
+    for f in prog.iter_functions():
+        if not prog.in_scope(f) or f.cls is None:
+            continue
+        decs = f.decorators if hasattr(f, "decorators") else []
+        if not (f.is_property or any("cached_property" in d or "lazy" in d for d in decs)):
+            continue
+        n += 1
+        selfn = f.node.args.args[0].arg if f.node.args.args else "self"
+        bad = None
+        for x in own_nodes(f.node):
+            tg = []
+            if isinstance(x, ast.Assign):
+                tg = x.targets
+            elif isinstance(x, (ast.AugAssign, ast.AnnAssign)):
+                tg = [x.target]
+            elif isinstance(x, ast.Delete):
+                tg = x.targets
+            for t in tg:
+                for el in (t.elts if isinstance(t, (ast.Tuple, ast.List)) else [t]):
+                    base = el
+                    while isinstance(base, (ast.Subscript, ast.Attribute)):
+                        if isinstance(base, ast.Attribute) and isinstance(base.value, ast.Name) and base.value.id == selfn:
+                            bad = bad or x
+                        base = base.value
+        rep.check(bad is None, "getters-are-pure", f.qualname, short(bad) if bad is not None else f.name,
+                  f"the getter {f.short} stores nothing on its object (what other members return cannot depend on whether it was read)", f.loc(bad) if bad is not None else f.loc())
+    rep.pin("property getters examined", n, 35)
+
+
 def run(prog: Program, rep, tier: str) -> None:
     rep.explanation = EXPLANATION
     rep.assumptions += ["user callbacks registered with Solver.callbacks are the user's code (exempt)",
@@ -111,7 +145,7 @@ def run(prog: Program, rep, tier: str) -> None:
     # ---- regions in algorithm functions ----------------------------------------------------------
     regions: List[Tuple[FuncInfo, object]] = []
     for fi in prog.iter_functions():
-        if not prog.in_scope(fi) or is_observer_func(fi) or fi.module.name.startswith("pygradflow.integration"):
+        if not prog.in_scope(fi) or is_observer_func(fi):
             continue
         ff = facts_for(fi)
         for s in ff.order:
@@ -181,9 +215,17 @@ def run(prog: Program, rep, tier: str) -> None:
         pm = parent_map(fi.node)
         uses = [m for m in own_nodes(fi.node) if isinstance(m, ast.Name) and m.id == name and isinstance(m.ctx, ast.Load)]
         bad = None
+        defs_ = [q for q in ff.order if isinstance(q.stmt, (ast.Assign, ast.AnnAssign, ast.AugAssign)) and not any(observer_fact(f) for f in q.facts)
+                 and any(isinstance(n_, ast.Name) and n_.id == name and isinstance(n_.ctx, ast.Store) for t_ in (q.stmt.targets if isinstance(q.stmt, ast.Assign) else [q.stmt.target]) for n_ in ast.walk(t_))
+                 and not isinstance(q.stmt, ast.AugAssign)]
         for u_ in uses:
             us = ff.stmt_of(u_)
             if us is None or any(observer_fact(f) for f in us.facts) or us.index <= s.index and us.stmt is s.stmt:
+                continue
+            # the observer's value cannot reach this use if an unconditional (non-observer) definition of the name dominates the
+            # use and lies between the observer's assignment and the use (along the loop's back edge if the assignment comes later)
+            if any(d.index < us.index and d.loops == us.loops[:len(d.loops)] and all(f in us.facts for f in d.facts) and (d.index > s.index or s.index > us.index)
+                   and (s.index < us.index or (d.loops and s.loops[:len(d.loops)] == d.loops)) for d in defs_):
                 continue
             par = pm.get(id(u_))
             # allowed sinks: the rcond slot of a result, logger arguments, and being the test of an observer condition itself
@@ -234,6 +276,7 @@ def run(prog: Program, rep, tier: str) -> None:
     # the linear solver shared between the step and its condition estimate keeps no state across solves
     from . import c17
     c17.stateless_solve(prog, rep)
+    getters_pure(prog, rep)
     # (e) path collection appends fresh copies
     z = prog.func("pygradflow.iterate.Iterate.z")
     r = returns_of(z)
@@ -246,7 +289,7 @@ def no_feedback(prog: Program, rep) -> None:
     # .rcond reads
     n = 0
     for fi in prog.iter_functions():
-        if not prog.in_scope(fi) or fi.module.name.startswith("pygradflow.integration"):
+        if not prog.in_scope(fi):
             continue
         pm = None
         for node in own_nodes(fi.node):
@@ -334,7 +377,7 @@ def containment(prog: Program, rep, x: ExcFlow, obs_funcs, regions) -> None:
     n_l = 0
     sd = prog.cls("pygradflow.display.StateData")
     for fi in prog.iter_functions():
-        if not prog.in_scope(fi) or fi.module.name.startswith("pygradflow.integration"):
+        if not prog.in_scope(fi):
             continue
         ff = facts_for(fi)
         for s in ff.order:
